@@ -194,3 +194,50 @@ V("c02-s-delay-ge", "C02", PEL, "        if len(pending_pruned_starts) > min_seg
 V("c02-s-delay-long", "C02", PEL, "        if len(pending_pruned_starts) > min_segment_shift:", "        if len(pending_pruned_starts) > min_segment_shift + 2:", "silent", "longer delay is still exact")
 V("c02-s-shift", "C02", PEL, "        latest_start = current_obs_ind - min_segment_shift\n", "        latest_start = current_obs_ind + 1 - min_segment_length\n", "silent", "same start written differently")
 V("c02-s-bt", "C02", PEL, "    i = len(prev_cpts) - 1\n", "    i = prev_cpts.shape[0] - 1\n", "silent", "shape[0] instead of len")
+
+# ------------------------------------------------------------------------ C03
+V("c03-f03-revert", ["C03", "C04"], MVC, "            point_anomalies.append((i, i + 1))", "            point_anomalies.append((i, i))", "fire", "F-03 reverted: empty point anomaly", ["IVL-WF"])
+V("c03-f04-revert", "C03", MVC, "    opt_start = starts[argmax]\n", "    opt_start = starts[0] + argmax\n", "fire", "F-04 reverted: start by offset on a pruned set", ["IDX-GATHER"])
+V("c03-f05-revert", "C03", MVC, "        penalised_saving_matrix = np.maximum(savings - betas[0], 0.0)\n        penalised_savings = penalised_saving_matrix.sum(axis=1) - alpha", "        penalised_saving_matrix = np.maximum(savings - betas[0], 0.0) - alpha\n        penalised_savings = penalised_saving_matrix.sum(axis=1)", "fire", "F-05 reverted: alpha charged p times", ["PEN-SAVING"])
+V("c03-f17-revert", "C03", MVC, "    ts = np.arange(n)\n", "    ts = np.arange(min_segment_length - 1, n)\n", "fire", "F-17 reverted: early samples never evaluated", ["DP-COVER"])
+V("c03-f16-revert", "C03", MVC, "            pending_pruned_starts.append(starts[saving_too_low])\n            if len(pending_pruned_starts) > min_segment_shift:\n                pruned_starts = pending_pruned_starts.pop(0)\n                starts = starts[~np.isin(starts, pruned_starts)]\n", "            starts = starts[~saving_too_low]\n", "fire", "F-16 reverted: immediate saving-based pruning", ["PRUNE-DIST"])
+V("c03-delay-short", "C03", MVC, "            if len(pending_pruned_starts) > min_segment_shift:", "            if len(pending_pruned_starts) >= min_segment_shift:", "fire", "FIFO one step short", ["PRUNE-DIST"])
+V("c03-prune-sign", "C03", MVC, "saving_too_low = candidate_savings + penalty_sum < opt_savings[t + 1]", "saving_too_low = candidate_savings - penalty_sum < opt_savings[t + 1]", "fire", "penalty sum subtracted in the pruning rule", ["PRUNE-FORM"])
+V("c03-prune-nobetas", "C03", MVC, "            penalty_sum = collective_alpha + collective_betas.sum()", "            penalty_sum = collective_alpha", "fire", "betas missing from the pruning slack", ["PRUNE-FORM"])
+V("c03-prune-old", "C03", MVC, "saving_too_low = candidate_savings + penalty_sum < opt_savings[t + 1]", "saving_too_low = candidate_savings + penalty_sum < opt_savings[t]", "fire", "compared with the previous optimum", ["PRUNE-FORM"])
+V("c03-maxlen", "C03", MVC, "            too_long_segment = starts < t - max_segment_length + 2", "            too_long_segment = starts < t - max_segment_length + 3", "fire", "segments of maximal length pruned one step early", ["PRUNE-FORM"])
+V("c03-maxlen2", "C03", MVC, "            too_long_segment = starts < t - max_segment_length + 2", "            too_long_segment = starts < t - max_segment_length + 1", "fire", "too long segments stay admissible", ["PRUNE-FORM"])
+V("c03-maxlen-inv", "C03", MVC, "            starts = starts[~too_long_segment]", "            starts = starts[too_long_segment]", "fire", "keeps only the too long starts", ["PRUNE-FORM"])
+V("c03-newest", "C03", MVC, "            starts = np.concatenate((starts, t_array - min_segment_shift))", "            starts = np.concatenate((starts, t_array - min_segment_shift + 1))", "fire", "newest start gives a too short anomaly", ["BELLMAN"])
+V("c03-ends", "C03", MVC, "            ends = np.repeat(t + 1, len(starts))", "            ends = np.repeat(t, len(starts))", "fire", "collective end off by one", ["BELLMAN"])
+V("c03-point-saving", "C03", MVC, "        point_savings = point_saving.evaluate(np.column_stack((t_array, t_array + 1)))", "        point_savings = collective_saving.evaluate(np.column_stack((t_array, t_array + 1)))", "fire", "point option uses the collective saving", ["BELLMAN"])
+V("c03-point-pen", "C03", MVC, "            t_array, opt_savings, point_savings, point_alpha, point_betas\n", "            t_array, opt_savings, point_savings, collective_alpha, point_betas\n", "fire", "point option uses the collective alpha", ["BELLMAN"])
+V("c03-point-ival", "C03", MVC, "        point_savings = point_saving.evaluate(np.column_stack((t_array, t_array + 1)))", "        point_savings = point_saving.evaluate(np.column_stack((t_array - 1, t_array + 1)))", "fire", "point anomaly scored on two samples", ["BELLMAN"])
+V("c03-guard", "C03", MVC, "        collective_possible = t >= min_segment_shift\n", "        collective_possible = t > min_segment_shift\n", "fire", "collective option delayed by one sample", ["DP-COVER", "BELLMAN"])
+V("c03-options", "C03", MVC, "        savings = np.array([opt_savings[t], opt_collective_saving, opt_point_saving])", "        savings = np.array([opt_savings[t], opt_point_saving, opt_collective_saving])", "fire", "options reordered (argmax codes no longer match)", ["BELLMAN", "IDX-GATHER"])
+V("c03-none-opt", "C03", MVC, "        savings = np.array([opt_savings[t], opt_collective_saving, opt_point_saving])", "        savings = np.array([0.0, opt_collective_saving, opt_point_saving])", "fire", "no-anomaly option is 0 instead of F[t]", ["BELLMAN"])
+V("c03-store", "C03", MVC, "        opt_savings[t + 1] = savings[argmax]\n", "        opt_savings[t] = savings[argmax]\n", "fire", "score stored one slot early", ["DP-COVER", "BELLMAN"])
+V("c03-rec-point", "C03", MVC, "        elif argmax == 2:\n            opt_anomaly_starts[t] = t\n", "        elif argmax == 2:\n            opt_anomaly_starts[t] = t - 1\n", "fire", "point anomaly recorded with length 2", ["IDX-GATHER"])
+V("c03-pen-general", "C03", MVC, "            penalised_saving = np.cumsum(saving_i[saving_order] - betas) - alpha", "            penalised_saving = np.cumsum(saving_i[saving_order] - betas - alpha)", "fire", "alpha inside the cumulative sum", ["PEN-SAVING"])
+V("c03-pen-order", "C03", MVC, "            saving_order = (-saving_i).argsort()  # Decreasing order.", "            saving_order = saving_i.argsort()  # Increasing order.", "fire", "savings sorted increasingly", ["PEN-SAVING"])
+V("c03-pen-unsorted", "C03", MVC, "            penalised_saving = np.cumsum(saving_i[saving_order] - betas) - alpha", "            penalised_saving = np.cumsum(saving_i - betas) - alpha", "fire", "savings not sorted before cumulating", ["PEN-SAVING"])
+V("c03-pen-dense", "C03", MVC, "        penalised_savings = savings.sum(axis=1) - alpha\n    elif", "        penalised_savings = savings.sum(axis=1)\n    elif", "fire", "dense shortcut without alpha", ["PEN-SAVING"])
+V("c03-bt-coll", "C03", MVC, "            collective_anomalies.append((int(start_i), i + 1))", "            collective_anomalies.append((int(start_i), i))", "fire", "collective anomaly end off by one", ["IVL-WF"])
+V("c03-bt-resume", "C03", MVC, "            collective_anomalies.append((int(start_i), i + 1))\n            i = int(start_i)\n", "            collective_anomalies.append((int(start_i), i + 1))\n            i = int(start_i) + 1\n", "fire", "scan resumes inside the anomaly (overlap)", ["IVL-WF"])
+V("c03-bt-size", "C03", MVC, "        if size > 1:\n            collective_anomalies.append", "        if size >= 1:\n            collective_anomalies.append", "fire", "length-1 events recorded as collective", ["IVL-WF"])
+V("c03-ignore", "C03", CAP, "        if not self.ignore_point_anomalies:\n            anomalies += point_anomalies\n", "        if self.ignore_point_anomalies:\n            anomalies += point_anomalies\n", "fire", "ignore flag inverted (CAPA)", ["IGNORE-POINT"])
+V("c03-ignore-mv", "C03", MVC, "        anomalies = collective_anomalies\n        if not self.ignore_point_anomalies:\n            anomalies += point_anomalies\n        anomalies = sorted(anomalies)\n\n        return SubsetCollectiveAnomalyDetector", "        anomalies = collective_anomalies\n        anomalies += point_anomalies\n        anomalies = sorted(anomalies)\n\n        return SubsetCollectiveAnomalyDetector", "fire", "flag ignored (MVCAPA)", ["IGNORE-POINT"])
+V("c03-unsorted", ["C03", "C04"], CAP, "        anomalies = sorted(anomalies)\n", "        anomalies = list(anomalies)\n", "fire", "anomalies not sorted", ["sorted"])
+V("c03-bind-len", "C03", CAP, "            self.min_segment_length,\n            self.max_segment_length,\n        )\n        self.scores", "            self.max_segment_length,\n            self.min_segment_length,\n        )\n        self.scores", "fire", "min/max segment length swapped", ["BINDING"])
+V("c03-bind-alpha", "C03", CAP, "            self.collective_penalty_,\n            self.point_penalty_,\n", "            self.point_penalty_,\n            self.collective_penalty_,\n", "fire", "penalties swapped", ["BINDING"])
+V("c03-bind-mv-scale", "C03", MVC, "    point_alpha, point_betas = point_penalty_func(\n        n, p, point_n_params_per_variable, scale=point_penalty_scale\n    )", "    point_alpha, point_betas = point_penalty_func(\n        n, p, point_n_params_per_variable, scale=collective_penalty_scale\n    )", "fire", "point penalty uses the collective scale", ["BINDING"])
+V("c03-bind-mv-roles", "C03", MVC, "        collective_alpha,\n        collective_betas,\n        point_alpha,\n        point_betas,\n        min_segment_length,", "        collective_alpha,\n        point_betas,\n        point_alpha,\n        collective_betas,\n        min_segment_length,", "fire", "betas swapped between roles", ["BINDING"])
+V("c03-nofit", "C03", CAP, "    collective_saving.fit(X)\n    point_saving.fit(X)\n    return run_base_capa(", "    collective_saving.fit(X)\n    return run_base_capa(", "fire", "point saving not refitted", ["fit-before-run"])
+
+V("c03-s-pen-form", "C03", MVC, "        penalised_savings = penalised_saving_matrix.sum(axis=1) - alpha", "        penalised_savings = -alpha + np.sum(penalised_saving_matrix, axis=1)", "silent", "np.sum form")
+V("c03-s-pen-ifif", "C03", MVC, "    elif np.all(betas == betas[0]):", "    if np.all(betas == betas[0]):", "silent", "if/if: overwriting the dense shortcut by the constant-beta form is value-equal for non-negative savings")
+V("c03-s-prune-form", "C03", MVC, "saving_too_low = candidate_savings + penalty_sum < opt_savings[t + 1]", "saving_too_low = candidate_savings < opt_savings[t + 1] - penalty_sum", "silent", "slack moved to the other side")
+V("c03-s-maxlen-form", "C03", MVC, "            too_long_segment = starts < t - max_segment_length + 2", "            too_long_segment = t + 2 - starts > max_segment_length", "silent", "length form of the max-length rule")
+V("c03-s-newest", "C03", MVC, "            starts = np.concatenate((starts, t_array - min_segment_shift))", "            starts = np.concatenate((starts, t_array - min_segment_length + 1))", "silent", "same start")
+V("c03-s-bt", "C03", MVC, "        size = i - start_i + 1\n        if size > 1:", "        size = i + 1 - start_i\n        if size >= 2:", "silent", "equivalent size test")
+V("c03-s-delay-longer", "C03", MVC, "            if len(pending_pruned_starts) > min_segment_shift:", "            if len(pending_pruned_starts) > min_segment_length:", "silent", "longer delay stays exact")
